@@ -152,7 +152,7 @@ def buildDefault (cfg : Cfg) (req : Req) : Policy :=
     | none => ser32 req.serverip
     | some ip => ser32 ip).flatten
   let used := usedAddressesL cfg.policies
-  let subs := cfg.addresses.map fun (addr, len) =>
+  let subs := (cfg.addresses.filter fun (_, len) => decide (Generated.Dhcp.defaultPoolMinLen ≤ len)).map fun (addr, len) =>
     let net := addr &&& netmask len
     let pool := ((defaultHostOffsets len).map (net + ·)).filter (fun ip => ip != req.serverip && !used.contains ip)
     let here := subnetContains (net, len) req.serverip
